@@ -74,7 +74,7 @@ def finish(c, res, rule, assumptions=None, extra=None):
     ])
 
 
-def run_exhaustive(c, cfgs, clause, orders=3, trace_every=10, lazy=False, parts=6):
+def run_exhaustive(c, cfgs, clause, orders=3, trace_every=10, lazy=False, parts=6, restarts=False):
     """Exhaustive small-scope part: TLC explores every DAG of the bounded model Lachesis.tla (checking the
     declarative invariants) and emits every distinct state; each state's DAG is fed to the real consensus in
     several parents-first orders and the emitted blocks are compared with the model's (pattern R); a sample of
@@ -110,6 +110,8 @@ def run_exhaustive(c, cfgs, clause, orders=3, trace_every=10, lazy=False, parts=
             args = ["lachreplay", "-orders", orders, "-trace-every", trace_every_cfg]
             if lazy or "lazy" in cfg:
                 args.append("-lazy")
+            if restarts:
+                args.append("-restarts")
             p = c.vh(args + [part, tr], timeout=3400, env={"VERIF_SEED": str(c.seed + i)})
             return json.loads(p.stdout), tr
 
